@@ -167,6 +167,90 @@ fn external_features(input: &Sexp, output: &Sexp, fs: &mut Vec<&'static str>) {
     }
 }
 
+/// symbolic constants `(sy "c")` (formulas and programs)
+fn symbols(e: &Sexp, out: &mut Vec<String>) {
+    walk(e, &mut |x| {
+        if let Some(("sy", [Sexp::S(c)])) = x.tag() {
+            out.push(c.clone());
+        }
+    });
+}
+/// `task_emit_external` (C09tasks): the clash shapes of `Problem::rename_conflicting_symbols` inside a proof
+/// outline - an outline entry that mentions a symbolic constant named like a 0-ary predicate of the task - counted
+/// when the implementation emitted outline problems of the direction in question.
+fn outline_clash_features(input: &Sexp, output: &Sexp, fs: &mut Vec<&'static str>) {
+    let Some(task) = external_task(input) else { return };
+    let [sp, prog, ug, po, ..] = task else { return };
+    let Some(("texts", texts)) = output.tag() else { return };
+    let emitted = |prefix: &str| texts.iter().any(|t| matches!(t, Sexp::L(v) if matches!(v.first(), Some(Sexp::S(n)) if n.starts_with(prefix))));
+    // 0-ary predicates: of the programs, the specification, the user guide (declarations and formulas), the outline
+    let mut outside = vec![];
+    program_preds(sp, &mut outside);
+    program_preds(prog, &mut outside);
+    formula_preds(sp, &mut outside);
+    formula_preds(ug, &mut outside);
+    walk(ug, &mut |x| {
+        if let Some(("input" | "output", [p])) = x.tag() {
+            outside.extend(pred(p));
+        }
+    });
+    let mut inside = vec![];
+    formula_preds(po, &mut inside);
+    let zero = |ps: &[(String, usize)]| -> Vec<String> { ps.iter().filter(|(_, n)| *n == 0).map(|(p, _)| p.clone()).collect() };
+    let (zero_outside, zero_inside) = (zero(&outside), zero(&inside));
+    let mut syms_outside = vec![];
+    for part in [sp, prog, ug] {
+        symbols(part, &mut syms_outside);
+    }
+    let mut all_syms = syms_outside.clone();
+    symbols(po, &mut all_syms);
+    let Some(("spec", entries)) = po.tag() else { return };
+    for e in entries {
+        let Some(("af", [Sexp::A(role), Sexp::A(dir), _, f])) = e.tag() else { continue };
+        let mut syms = vec![];
+        symbols(f, &mut syms);
+        let mut own = vec![];
+        formula_preds(f, &mut own);
+        let own_zero = zero(&own);
+        let clash_premises = syms.iter().any(|c| zero_outside.contains(c));
+        let clash_own = syms.iter().any(|c| own_zero.contains(c));
+        // a 0-ary predicate that occurs in the outline only and is the name of a constant outside this entry
+        let pred_only_here = own_zero.iter().any(|p| !zero_outside.contains(p) && syms_outside.contains(p));
+        if !(clash_premises || clash_own || pred_only_here) {
+            continue;
+        }
+        let forward = dir != "backward" && emitted("forward_outline_");
+        let backward = dir != "forward" && emitted("backward_outline_");
+        if !(forward || backward) {
+            continue;
+        }
+        if forward {
+            fs.push("outline-clash-forward");
+        }
+        if backward {
+            fs.push("outline-clash-backward");
+        }
+        match role.as_str() {
+            "lemma" => fs.push("outline-clash-lemma"),
+            "inductive-lemma" => fs.push("outline-clash-inductive-lemma"),
+            "definition" => fs.push("outline-clash-definition"),
+            _ => {}
+        }
+        if clash_premises && !clash_own {
+            fs.push("outline-clash-constant-in-entry-predicate-in-premises");
+        }
+        if clash_own {
+            fs.push("outline-clash-constant-and-predicate-in-entry");
+        }
+        if pred_only_here {
+            fs.push("outline-clash-predicate-in-entry-constant-in-premises");
+        }
+        if syms.iter().any(|c| (zero_outside.contains(c) || zero_inside.contains(c)) && all_syms.contains(&format!("{c}__s"))) {
+            fs.push("outline-clash-renamed-meets-constant");
+        }
+    }
+}
+
 /// binder names `(("X" i) ..)` of all quantifier blocks
 fn binders(e: &Sexp, out: &mut Vec<(String, String)>) {
     walk(e, &mut |x| {
@@ -387,6 +471,9 @@ pub fn features(op: &str, input: &Sexp, output: &Sexp) -> Vec<&'static str> {
     let mut fs: Vec<&'static str> = vec![];
     if op.starts_with("external_") || op == "chain_external" {
         external_features(input, output, &mut fs);
+    }
+    if op == "task_emit_external" {
+        outline_clash_features(input, output, &mut fs);
     }
     if op == "proof_outline" {
         if let Sexp::L(v) = input {
